@@ -60,6 +60,11 @@ def run(ctx):
         uN = (not lN) and rng.random() < 0.3
         A = rng.choice([-1, -2])
         B, C, D = rng.choice(POLYS["B"]), rng.choice(POLYS["C"]), rng.choice(POLYS["D"])
+        # "quadrature of the requested exactness": one query in five asks for exactly the exactness its integrands need, an EVEN
+        # number (C = r^3: C phi psi r has degree 2p + 4), so that one Gauss point too few is no longer exact
+        tight = len(queries) % 5 == 4
+        if tight:
+            p, cu, ncells, r0, C = rng.choice([2, 3]), False, rng.randint(2, 4), 1, [0, 0, 0, 1]
         if lN and uN and C == [0]:
             continue
         nb = ncells + p
@@ -81,7 +86,7 @@ def run(ctx):
             continue
         q = {"id": len(queries) + 1, "p": p, "ncells": ncells, "r0": r0, "coef": coef, "A": A, "B": B, "C": C, "D": D, "msq": m * m, "lN": lN, "uN": uN, "mI": 0, "nth": 1}
         queries.append(q)
-        info.append({"cu": cu, "nth": nth, "I": I, "m": m})
+        info.append({"cu": cu, "nth": nth, "I": I, "m": m, "exactness": (2 * p + 4) if tight else (2 * p + 8)})
     r = ctx.tlc("GalerkinMC", "INIT Init\nNEXT Next\nCONSTANT NMax = 16\nINVARIANT IModes\nINVARIANT IBC\nINVARIANT Dump\nCHECK_DEADLOCK FALSE\n",
                 what="mode tables to 16 theta points + exact forcing of %d manufactured solutions" % len(queries),
                 files={"queries.json": json.dumps(queries)}, env={"QUERY_FILE": "queries.json"}, workers=16)
@@ -118,7 +123,7 @@ def run(ctx):
         m = inf["m"]
         sig0 = {"degree": p, "cu_input": inf["cu"], "lNeumann": q["lN"], "uNeumann": q["uN"], "mode_zero": m == 0}
         try:
-            solver = DiffEqSolver(2 * p + 8, basis, len(rn), nth, lNeumannIdx=[m] if q["lN"] else [], uNeumannIdx=[m] if q["uN"] else [],
+            solver = DiffEqSolver(inf["exactness"], basis, len(rn), nth, lNeumannIdx=[m] if q["lN"] else [], uNeumannIdx=[m] if q["uN"] else [],
                                   ddrFactor=lambda r_, A=q["A"]: A, drFactor=pfun(q["B"]), rFactor=pfun(q["C"]), ddThetaFactor=pfun(q["D"]))
             phi = make_grid(eta)
             phi.getAllData()[:] = 0
@@ -152,6 +157,57 @@ def run(ctx):
                           {"query": q, "info": inf, "got": [complex(x).real for x in got], "want": want.tolist()})
         if abs(np.max(np.abs(np.imag(got)))) > 1e-12:
             ctx.violation(dict(sig0, kind="imaginary-part"), "real right-hand side gives imaginary part %g" % float(np.max(np.abs(np.imag(got)))), {"query": q})
+    # ---- the weak form itself: exact rational Galerkin solution (harness.weakform on TLC's basis-polynomial tables) for right-hand sides
+    # that are NOT manufactured from a known solution, with exactly the quadrature exactness the integrands need (an even number: one
+    # Gauss point too few is then no longer exact, and its error does not cancel as it does for a manufactured right-hand side)
+    from harness import weakform as wf
+    from harness import splineoracle as so
+    tabs = [sp for sp in so.run_box(ctx, 4, 5, 5, kinds=("clamped",), uniform_only=True, what="clamped uniform spaces for the exact weak form")
+            if sp.ncells >= 2 and sp.p >= 1]
+    nweak = 0
+    for t in range(10 if quick else 80):
+        sp = rng.choice(tabs)
+        p, ncells, r0 = sp.p, sp.ncells, rng.choice([1, 2])
+        nth = rng.choice([6, 7, 8])
+        I = rng.choice([0, 1, 2, nth // 2, nth - 1])
+        m = I if I < (nth + 1) // 2 else I - nth
+        lN = rng.random() < 0.4
+        A = rng.choice([-1, -2])
+        B, D = rng.choice(POLYS["B"]), rng.choice(POLYS["D"])
+        C = rng.choice([[0, 0, 0, 1], [1, 0, 0, 1], [0, 1, 0, 2]])                      # degree 3: C phi psi r has degree 2p + 4
+        E = rng.choice(POLYS["E"])
+        rho = [rng.randint(-3, 3) for _ in range(p + 4 - len(E))] + [1]                     # E rho psi r has degree 2p + 4 as well
+        co = wf.galerkin(sp, r0, A, B, C, D, E, rho, m * m, lN, False)
+        basis = space_objs(p, ncells, r0, p == 3 and t % 2 == 0)
+        rn = np.array(basis.greville, dtype=float)
+        eta = [rn, np.arange(nth, dtype=float), np.array([0.0, 1.0])]
+        want = np.array([float(sp.spline(co, Fr(round((x - r0) * 120), 120))) for x in rn])
+        rf, ef = pfun(rho), pfun(E)
+        sig0 = {"degree": p, "lNeumann": lN, "mode_zero": m == 0, "exactness": 2 * p + 4}
+        try:
+            solver = DiffEqSolver(2 * p + 4, basis, len(rn), nth, lNeumannIdx=[m] if lN else [], ddrFactor=lambda r_, A=A: A,
+                                  drFactor=pfun(B), rFactor=pfun(C), ddThetaFactor=pfun(D), rhoFactor=ef)
+            phi = make_grid(eta)
+            phi.getAllData()[:] = 0
+            import warnings
+            with warnings.catch_warnings():
+                warnings.simplefilter("ignore")
+                solver.solveEquationForFunction(phi, lambda rv: ef(np.asarray(rv, dtype=float)) * rf(np.asarray(rv, dtype=float)))
+            got = np.real(np.array(phi.get1DSlice(I, 0)))
+        except Exception as ex:
+            ctx.violation(dict(sig0, kind="solver-raises", error=type(ex).__name__), "DiffEqSolver raised %s: %s (weak-form case %d)" % (type(ex).__name__, ex, t), {"case": t})
+            continue
+        nweak += 1
+        ctx.count(("weak-form", sp.key(), r0, nth, I, lN, A, tuple(B), tuple(C), tuple(D), tuple(E), tuple(rho)))
+        scale = max(1.0, float(np.max(np.abs(want))))
+        err = float(np.max(np.abs(got - want)))
+        worst = max(worst, err / scale)
+        if not err <= 1e-8 * scale:
+            ctx.violation(dict(sig0, kind="galerkin-solution"),
+                          "the solver's result deviates by %g (relative %g) from the exact Galerkin solution: degree %d, %d cells from r=%d, mode m=%d, BC %s/D, "
+                          "A=%s B=%s C=%s D=%s E=%s rho=%s, requested exactness %d" % (err, err / scale, p, ncells, r0, m, "N" if lN else "D", A, B, C, D, E, rho, 2 * p + 4),
+                          {"space": sp.key(), "r0": r0, "m": m, "A": A, "B": B, "C": C, "D": D, "E": E, "rho": rho, "got": got.tolist(), "want": want.tolist()})
+    ctx.extra["exact_weak_form_solutions_compared"] = nweak
     # ---- relations on the code: grid path = function path with E*rho, linearity, Dirichlet zeros, mode independence, refusal
     for t in range(8 if quick else 60):
         p = rng.choice([2, 3, 4])
@@ -223,6 +279,10 @@ def run(ctx):
     except Exception as ex:
         ctx.violation({"kind": "well-posed-neumann-refused"}, "Neumann/Neumann with C = 1 was refused: %s" % ex, {})
     ctx.count(("refusal",))
+    try:        # C vanishes on part of the domain only: the constant is fixed, the problem is well posed
+        DiffEqSolver(10, basis, basis.nbasis, 8, lNeumannIdx=[0], uNeumannIdx=[0], rFactor=lambda r: 0.0 if r < 3.0 else 1.0)
+    except Exception as ex:
+        ctx.violation({"kind": "well-posed-neumann-refused", "mode_zero": True}, "Neumann/Neumann with C = 0 for r < 3 and 1 beyond was refused: %s" % ex, {})
     # the same for every mode index: a mode that is Neumann on both sides is ill posed exactly when nothing fixes the free constant,
     # i.e. C = 0 and m^2 D = 0 (m = 0, or D = 0: Galerkin.tla, IllPosed); it must be refused then, and accepted when C != 0
     for mode in (0, 1, 2, -1, 4, 7):
